@@ -74,12 +74,14 @@ Section SpecProofs.
   Theorem compat_accepts t : forall s j,
     compat s t = true -> conforms s j = true -> extra_free s t j = true -> exists v, deser t j = Some v.
   Proof.
-    induction t as [|c|al| |lo hi| |k| |t IH|t IH|c t IH|fs IH] using ty_ind'; intros s j Hc Hj He; cbn [SerdeSpec.compat] in Hc.
+    induction t as [|c|al| |lo hi|lo hi| |k| |t IH|t IH|c t IH|al t IH|fs IH] using ty_ind'; intros s j Hc Hj He; cbn [SerdeSpec.compat] in Hc.
     - destruct s; try discriminate; destruct j; try discriminate; cbn; eauto.
     - destruct s; try discriminate. apply N.eqb_eq in Hc. subst. destruct j; try discriminate. cbn in Hj. cbn.
       rewrite Hj. eauto.
     - destruct s; try discriminate; destruct j; try discriminate; cbn; eauto.
     - destruct s; try discriminate; destruct j; try discriminate; cbn; eauto.
+    - destruct s; try discriminate. destruct j; try discriminate. cbn in Hj. cbn.
+      replace ((lo <=? z)%Z && (z <=? hi)%Z) with true by lia. eauto.
     - destruct s; try discriminate. destruct j; try discriminate. cbn in Hj. cbn.
       replace ((lo <=? z)%Z && (z <=? hi)%Z) with true by lia. eauto.
     - cbn. eauto.
@@ -108,6 +110,13 @@ Section SpecProofs.
         { apply orb_true_iff in Hcc as [E|E]; apply N.eqb_eq in E; subst; [exact Hk|apply valid0]. }
         now rewrite Hvk. }
       destruct G as [vs ->]. cbn. eauto.
+    - destruct s; try discriminate. destruct j; try discriminate. cbn [SerdeSpec.conforms] in Hj. cbn [extra_free] in He.
+      change (Serde.deser valid (TMapEnum al t) (JObj m)) with (option_map VMap (deser_mapenum valid al t m [])).
+      assert (G : forall acc, exists vs, deser_mapenum valid al t m acc = Some vs).
+      { induction m as [|[k x] m IHm]; intros acc; [exists acc; reflexivity|]. cbn [forallb fst snd] in Hj, He.
+        apply andb_true_iff in Hj as [Hx Hm]. apply andb_true_iff in Hx as [_ Hx]. apply andb_true_iff in He as [Ex Em].
+        destruct (IH s x Hc Hx Ex) as [v Hv]. rewrite deser_mapenum_cons, Hv. apply IHm; assumption. }
+      destruct (G []) as [vs ->]. cbn. eauto.
     - destruct s as [| | | | | | | |sfs]; try discriminate. destruct j; try discriminate.
       apply andb_true_iff in Hc as [_ Hc].
       change (compat_fields sfs fs = true) in Hc.
